@@ -416,6 +416,11 @@ def state_tag_agrees(ctx, db, rid='C01.state-tag-agrees'):
                 for mem in used:
                     if arm == 'default' or TAG_OF_MEMBER[mem] != arm:
                         bad = bad or 'arm %s %s member %s' % (arm, kind, mem)
+            if kind == 'destroys' and not bad:
+                # ... and the stored exception is released in every instantiation - future<void> stores no value, but it does store exceptions
+                rel = any(it.k == 'call' and re.search(r'\._exception\b', it.get('recv') or '') and '~' in (it.get('callee') or '') for tr in T.traces(f) for it in tr)
+                if not rel:
+                    bad = 'the destructor of %s never releases a stored exception (the exception object leaks with every failed future)' % (f.get('class_inst') or 'future<T>')
             k = (f['key'], bad)
             if k in seen:
                 continue
